@@ -1,11 +1,190 @@
 import CentrifugeVerif.DriverLib
 import CentrifugeVerif.Model.PresenceHub
+import CentrifugeVerif.Model.PresenceProto
 /-!
 Driver for C06 (store part).  Stateful; lines:
 `reset` → `ok`; `add <ch> <uid> <clientID> <userID>` → `ok`; `rm <ch> <uid>` → `ok`;
 `get <ch>` → `nil` or `uid=clientID/userID,…` sorted by uid; `stats <ch>` → `clients=<n> users=<n>`.
 -/
 open CentrifugeVerif DriverLib PresenceHub
+
+
+/-! ## protocol part: harness-level labels over `PresenceProto.next`
+
+`prun quiet=<b> | <hlabel>…` replays, `pgen quiet=<b> | <n>…` builds a schedule (random part, then all
+live actors are run to their end so that the final state is settled).  Harness labels: `S` (spawn /
+advance the subscribe attempt), `Sf` (OnSubscribe handler answers with an error), `Sl` (history read
+fails after presence was added), `U` (Client.Unsubscribe), `C` (close), `T` (presence tick).
+Output: `chan=<none|res|sub> present=<b> live=<actor@gate,…> settled=<b>`. -/
+namespace PP
+open CentrifugeVerif.PresenceProto
+
+def seqL (cfg : Cfg) (s : State) : List Label → Option State
+  | [] => some s
+  | l :: ls => (next cfg s l).bind (fun s' => seqL cfg s' ls)
+
+/-- unsubscribe calls blocked on `subscribingCh` continue by themselves once the attempt ended -/
+def autoWake (cfg : Cfg) (s : State) : State :=
+  let s1 := match s.U with
+    | some u =>
+      if u.pc = UPc.waiting && s.S.isNone then
+        match next cfg s .uWake with
+        | some s' => (match s'.U with
+            | some u' => if u'.pc = UPc.toRemove then (next cfg s' .uRemove).getD s' else s'
+            | none => s')
+        | none => s
+      else s
+    | none => s
+  match s1.C with
+  | some (.locked (some u)) =>
+    if u.pc = UPc.waiting && s1.S.isNone then
+      match next cfg s1 .cWake with
+      | some s' => (match s'.C with
+          | some (.locked (some u')) => if u'.pc = UPc.toRemove then (next cfg s' .cRemove).getD s' else s'
+          | _ => s')
+      | none => s1
+    else s1
+  | _ => s1
+
+def hstep (cfg : Cfg) (s : State) (lab : String) : Option State :=
+  -- harness restriction (not a model restriction): while close() is parked inside Transport.Close it
+  -- holds connectMu, and a subscribe step that ends in a reply/disconnect write on the closed writer
+  -- spawns another close() goroutine that would sit on that mutex (invisible to synctest.Wait)
+  let cMarked := match s.C with | some (.marked _) => true | _ => false
+  let sWrites := match lab, s.S with
+    | "S", some t => t.pc != SPc.toAdd
+    | "Sf", _ => true
+    | "Sl", _ => true
+    | _, _ => false
+  if cMarked && sWrites then none else
+  let r : Option State :=
+    match lab with
+    | "S" =>
+      match s.S with
+      | none => next cfg s .sSpawn
+      | some t =>
+        match t.pc with
+        | .reserved => next cfg s .sCheck
+        | .toAdd => next cfg s .sAdd
+        | .toCommit => (next cfg s .sCommit).bind fun s' =>
+            match s'.S with
+            | some _ => next cfg s' .sRollback
+            | none => some s'
+        | .rollback => next cfg s .sRollback
+    | "Sf" => next cfg s .sFail
+    | "Sl" => next cfg s .sFailLate
+    | "U" =>
+      match s.U with
+      | none => (next cfg s .uSpawn).bind fun s' =>
+          match s'.U with
+          | some u => if u.pc = .toRemove then next cfg s' .uRemove else some s'
+          | none => some s'
+      | some u => if u.pc = .toPresence then next cfg s .uPresence else none
+    | "C" =>
+      match s.C with
+      | none => next cfg s .cMark
+      | some (.marked _) => (next cfg s .cLock).bind fun s1 =>
+          match s1.C with
+          | some (.locked none) => (next cfg s1 .cSnap).bind fun s2 =>
+              match s2.C with
+              | some (.locked (some u)) => if u.pc = .toRemove then next cfg s2 .cRemove else some s2
+              | _ => some s2
+          | _ => some s1
+      | some (.locked (some u)) => if u.pc = .toPresence then next cfg s .cPresence else none
+      | _ => none
+    | "T" =>
+      let comp (s' : State) : Option State := next cfg s' .tCompensate
+      match s.T with
+      | none => next cfg s .tStart
+      | some t =>
+        match t.pc with
+        | .alive => (next cfg s .tCheck).bind fun s1 =>
+            match s1.T with
+            | some t1 => if t1.pc = .compensate then comp s1 else some s1
+            | none => some s1
+        | .toAdd => (next cfg s .tAdd).bind comp
+        | .compensate => comp s
+        | .toRemove => next cfg s .tRemove
+    | _ => none
+  r.map (autoWake cfg)
+
+def insS (x : String) : List String → List String
+  | [] => [x]
+  | y :: ys => if x ≤ y then x :: y :: ys else y :: insS x ys
+
+def liveKeys (s : State) : List String :=
+  let a := match s.S with
+    | some t => (match t.pc with
+        | .reserved => ["S@onsub"] | .toAdd => ["S@addpres"] | .toCommit => ["S@history"] | .rollback => ["S@?"])
+    | none => []
+  let b := match s.U with
+    | some u => (match u.pc with | .waiting => ["U@wait"] | .toRemove => ["U@?"] | .toPresence => ["U@rmpres"])
+    | none => []
+  let c := match s.C with
+    | some (.marked _) => ["C@tclose"]
+    | some (.locked none) => ["C@?"]
+    | some (.locked (some u)) =>
+      (match u.pc with | .waiting => ["C@wait"] | .toRemove => ["C@?"] | .toPresence => ["C@rmpres"])
+    | _ => []
+  let d := match s.T with
+    | some t => (match t.pc with
+        | .alive => ["T@alive"] | .toAdd => ["T@addpres"] | .compensate => ["T@?"] | .toRemove => ["T@rmpres"])
+    | none => []
+  (a ++ b ++ c ++ d).foldr insS []
+
+def render (s : State) : String :=
+  let ch := match s.chan with | none => "none" | some (_, false) => "res" | some (_, true) => "sub"
+  let b (x : Bool) : String := if x then "1" else "0"
+  s!"chan={ch} present={b s.present} live={joinWith "," (liveKeys s)} settled={b (Settled s)}"
+
+def runLabels (cfg : Cfg) : State → List String → Nat → Except Nat State
+  | s, [], _ => .ok s
+  | s, l :: ls, i =>
+    match hstep cfg s l with
+    | none => .error i
+    | some s' => runLabels cfg s' ls (i + 1)
+
+def candidates : List String := ["S", "S", "S", "Sf", "Sl", "U", "U", "C", "T", "T", "T"]
+
+def genLabels (cfg : Cfg) : State → List Nat → List String → State × List String
+  | s, [], acc => (s, acc)
+  | s, r :: rs, acc =>
+    let en := candidates.filterMap fun l => (hstep cfg s l).map fun s' => (l, s')
+    match en[r % (max en.length 1)]? with
+    | none => (s, acc)
+    | some (l, s') => genLabels cfg s' rs (acc ++ [l])
+
+/-- run every live actor to its end (no new actors) -/
+def finish (cfg : Cfg) : Nat → State → List String → State × List String
+  | 0, s, acc => (s, acc)
+  | fuel + 1, s, acc =>
+    if Settled s then (s, acc)
+    else
+      let tryL (l : String) (live : Bool) : Option (String × State) :=
+        if live then (hstep cfg s l).map fun s' => (l, s') else none
+      let cLive := match s.C with | some .done => false | some _ => true | none => false
+      match (tryL "S" s.S.isSome).orElse fun _ => (tryL "T" s.T.isSome).orElse fun _ =>
+            (tryL "U" s.U.isSome).orElse fun _ => tryL "C" cLive with
+      | some (l, s') => finish cfg fuel s' (acc ++ [l])
+      | none => (s, acc)
+
+def protoStep (ws : List String) : String :=
+  let headW := ws.takeWhile (· ≠ "|")
+  let tailW := (ws.dropWhile (· ≠ "|")).drop 1
+  match headW with
+  | "prun" :: cfgW =>
+    let cfg : Cfg := { quietResub := kv cfgW "quiet" == some "1" }
+    match runLabels cfg {} tailW 0 with
+    | .ok s => render s
+    | .error i => s!"disabled@{i}"
+  | "pgen" :: cfgW =>
+    let cfg : Cfg := { quietResub := kv cfgW "quiet" == some "1" }
+    let (s1, l1) := genLabels cfg {} (tailW.filterMap String.toNat?) []
+    let (s2, l2) := finish cfg 40 s1 l1
+    s!"labels={joinWith "," l2} {render s2}"
+  | _ => "bad-op"
+
+end PP
 
 def insBy (x : String × Info) : List (String × Info) → List (String × Info)
   | [] => [x]
@@ -25,6 +204,8 @@ def step (h : Hub) (line : String) : Hub × String :=
   | ["stats", ch] =>
     let st := getStats ch h
     (h, s!"clients={st.numClients} users={st.numUsers}")
-  | _ => (h, "bad-op")
+  | ws => (h, PP.protoStep ws)
+
+
 
 def main : IO Unit := runState step ([] : Hub)
